@@ -411,7 +411,12 @@ fn spend_grid(r: &mut Runner) {
     let mut bad = osmo.clone();
     let last = bad.pop().unwrap();
     bad.push(if last == 'q' { 'p' } else { 'q' });
-    let receivers = vec![osmo.clone(), osmo.to_uppercase(), cel.clone(), bech::addr("cosmos", "recv", 20), bad, String::new(), p32("recv32"), bech::addr("celestia", "recv", 32), "osmo1".to_string()];
+    let receivers = vec![osmo.clone(), osmo.to_uppercase(), cel.clone(), bech::addr("cosmos", "recv", 20), bad, String::new(), p32("recv32"), bech::addr("celestia", "recv", 32), "osmo1".to_string(),
+        // prefixes that merely begin with, or are a beginning of, the expected one (validator-operator
+        // addresses, another chain sharing the stem): checksum-valid, wrong chain
+        bech::addr("osmovaloper", "recv", 20), bech::addr("osmosis", "recv", 20), bech::addr("osm", "recv", 20),
+        bech::addr("celestiavaloper", "recv", 20), bech::addr("celestiavalcons", "recv", 20), bech::addr("celest", "recv", 20),
+        bech::addr("osmovaloper", "recv", 20).to_uppercase(), bech::addr("celestiavaloper", "recv", 20).to_uppercase()];
     let coins = [("a", 1u128), ("ibc/ABC", 1_000_000_000_000_000_000_000_000_000), ("b", 0)];
     let mut n = 0;
     let mut acc = 0;
